@@ -285,6 +285,7 @@ func TarReaderNext(tr *tar.Reader) (*tar.Header, error) {
 	if st.err != nil {
 		return nil, st.err
 	}
+	Touch("Drive.tape", false)
 	hdr, err := st.next()
 	st.err = err
 	return hdr, err
@@ -529,6 +530,7 @@ func TarWriterWriteHeader(tw *tar.Writer, hdr *tar.Header) error {
 	if st.err != nil {
 		return st.err
 	}
+	Touch("Drive.tape", true)
 	if err := st.finish(); err != nil {
 		st.err = err
 		return err
